@@ -253,6 +253,96 @@ def FCWu(xu, xd, yu, yd, qu, qd):
     return (yu*fCSu(xu, xd, qu, qd) - xu*fCSu(yu, yd, qu, qd))/(xu - yu)
 
 
+# ---- C02 additions -------------------------------------------------------------------------
+# Shared evaluation of f_CSd / f_CSu (same expressions as fCSd/fCSu above, the expensive
+# PhiOverY / Li2 / log pieces computed once per (xu, xd) and reused for every charge pair).
+
+def fCS_parts(xu, xd):
+    return (PhiOverY(xu, xd), mre(_li2(1 - xd/xu)), log(xu), log(xd))
+
+def fCSd_from(parts, xu, xd, qu, qd):
+    phiy, li, lxu, lxd = parts
+    s = (qu + qd)/4
+    c = (xu - xd)**2 - qu*xu + qd*xd
+    cbar = (xu - qu)*xu - (xd + qd)*xd
+    return xd*(-(xu - xd) + (cbar - c*(xu - xd))*phiy + c*(li - lxu*(lxd - lxu)/2) + (s + xd)*lxd + (s - xu)*lxu)
+
+def fCSu_from(parts, xu, xd, qu, qd):
+    phiy, li, lxu, lxd = parts
+    return xu*(fCSd_from(parts, xu, xd, qu + 2, qd + 2)/xd - mpf(4)/3*(xu - xd - 1)*phiy
+               - (lxd + lxu)*(lxd - lxu)/3)
+
+def fCS_all(xu, xd, charges):
+    """[(fCSd, fCSu)] for every (qu, qd) in charges; xu, xd > 0."""
+    parts = fCS_parts(xu, xd)
+    return [(fCSd_from(parts, xu, xd, qu, qd), fCSu_from(parts, xu, xd, qu, qd)) for qu, qd in charges]
+
+def FCW_both(xu, xd, yu, yd, qu, qd):
+    """(FCWu, FCWd) of ffunctions.m.  When the two mass scales coincide exactly (xu == yu and
+    xd == yd) the difference quotient is replaced by its limit along the physical direction
+    (yu, yd) = s (xu, xd), s -> 1, evaluated as the symmetric mean over s = 1 +- h (error O(h^2))."""
+    if xu == yu and xd == yd:
+        h = mpf(10)**(-(mp.dps//3))
+        res = [mpf(0), mpf(0)]
+        d0, u0 = fCS_all(xu, xd, [(qu, qd)])[0]
+        for s in (1 + h, 1 - h):
+            d1, u1 = fCS_all(s*xu, s*xd, [(qu, qd)])[0]
+            res[0] += (s*u0 - u1)/(1 - s)/2
+            res[1] += (s*d0 - d1)/(1 - s)/2
+        return res[0], res[1]
+    d0, u0 = fCS_all(xu, xd, [(qu, qd)])[0]
+    d1, u1 = fCS_all(yu, yd, [(qu, qd)])[0]
+    return (yu*u0 - xu*u1)/(xu - yu), (yd*d0 - xd*d1)/(xd - yd)
+
+def FCWl_closed(x):
+    """FCWl[x, x] exactly as written in math/ffunctions.m"""
+    return mre((-3*x + 12*x**2 + pi**2*x**2 - 2*pi**2*x**3 - 6*x**2*log(1 - (-1 + x)/x) + 6*x**2*log(x)
+                + 6*x**2*_li2(1 - 1/x) - 6*x**3*_li2(1 - 1/x) - 12*x**2*_li2((-1 + x)/x)
+                + 18*x**3*_li2((-1 + x)/x))/6)
+
+def Phi_DT_integral(u, v):
+    """Davydychev-Tausk one-dimensional integral representation of Phi(u, v) (independent of the
+    closed form): Phi(x, y, z) = z lambda^2(u, v)/2 * Phi_DT(x/z, y/z).  Used to validate Phi()."""
+    g = lambda xi: -(log(v/u) + 2*log(xi))/(v*xi*xi + (1 - u - v)*xi + u)
+    return mpmath.quad(g, [0, mpf(1)/4, mpf(1)/2, mpf(3)/4, 1])
+
+def dps_multi(args, base=30):
+    """working precision for the multi-argument definitions: base + 5 digits per decade of
+    closeness of any two positive arguments to each other / to 1 / to 1/4 (the closed forms
+    cancel like delta^k there) + allowance for cancellation at very large / small arguments."""
+    pos = [float(v) for v in args if v > 0]
+    ds = []
+    for i in range(len(pos)):
+        ds.append(pos[i] - 1.0)
+        ds.append(pos[i] - 0.25)
+        for j in range(i + 1, len(pos)):
+            ds.append((pos[i] - pos[j])/max(pos[i], pos[j]))
+    dps = base - BASE_DPS + _dps_for(*[d for d in ds if d != 0]) if ds else base
+    if pos:
+        import math
+        dps += int(4*max(0.0, math.log10(max(pos))) + 2*max(0.0, -math.log10(min(pos))))
+    return dps
+
+def ref_multi(name, args, extra=0):
+    """reference value(s) at the doubles `args`.  name in MULTI, or the groups
+    'fCS' (args = xu, xd, then charge pairs flattened -> list of (fCSd, fCSu)) and
+    'FCW' (args = xu, xd, yu, yd, qu, qd -> (FCWu, FCWd))."""
+    a = [float(v) for v in args]
+    if name == "fCS":
+        with prec(dps_multi(a[:2]) + extra):
+            ch = [(mpf(a[i]), mpf(a[i + 1])) for i in range(2, len(a), 2)]
+            return [(+d, +u) for d, u in fCS_all(mpf(a[0]), mpf(a[1]), ch)]
+    if name == "FCW":
+        with prec(dps_multi(a[:4]) + extra + (30 if (a[0] == a[2] and a[1] == a[3]) else 0)):
+            u, d = FCW_both(*[mpf(v) for v in a])
+            return +u, +d
+    if name == "FCWl" and a[0] == a[1] and a[0] > 0:
+        with prec(dps_multi(a) + extra):
+            return +FCWl_closed(mpf(a[0]))
+    with prec(dps_multi(a) + extra):
+        return +MULTI[name](*[mpf(v) for v in a])
+
+
 ONE_ARG = {
     "F1C": F1C, "F2C": F2C, "F3C": F3C, "F4C": F4C, "F1N": F1N, "F2N": F2N,
     "F3N": F3N, "F4N": F4N, "G3": G3, "G4": G4, "f_PS": fPS, "f_S": fS,
@@ -323,6 +413,67 @@ def selftest():
         cf = (-3*xx + 12*xx**2 + pi**2*xx**2 - 2*pi**2*xx**3 - 6*xx**2*log(1 - (-1 + xx)/xx) + 6*xx**2*log(xx)
               + 6*xx**2*_li2(1 - 1/xx) - 6*xx**3*_li2(1 - 1/xx) - 12*xx**2*_li2((-1 + xx)/xx) + 18*xx**3*_li2((-1 + xx)/xx))/6
         if abs(mre(cf) - FCWl(xx, xx)) > mpf(10)**-25: bad.append(("FCWl-closed", str(cf), str(FCWl(xx, xx))))
+    bad += selftest_multi()
+    return bad
+
+
+def selftest_multi():
+    """C02: validates the multi-argument references against independent representations."""
+    bad = []
+    with prec(25):
+        # Phi closed form (arXiv:1607.06292 Eq.68) vs the Davydychev-Tausk integral, in all three
+        # regions of lambda^2; for lambda^2 < 0 for every choice of the normalising argument (for
+        # lambda^2 > 0 the integrand has poles inside (0,1) unless the largest argument normalises)
+        for x, y, z in [(1, 1, 1), (0.3, 0.2, 1), (0.01, 0.5, 1), (2.5, 0.7, 1), (0.04, 0.05, 1), (3, 7, 1), (9, 1, 1.5),
+                        (1e-3, 1, 1e3), (1, 1.001, 4.1), (1, 1.001, 3.9)]:
+            x, y, z = mpf(x), mpf(y), mpf(z)
+            l2 = LambdaK2(x, y, z)
+            for (p, q, r) in ((x, y, z), (z, x, y), (y, z, x)):
+                if l2 > 0 and r != max(x, y, z): continue
+                u, v = p/r, q/r
+                want = r*((1 - u - v)**2 - 4*u*v)/2*Phi_DT_integral(u, v)
+                got = Phi(x, y, z)
+                if abs(want - got) > mpf(10)**-15*max(x, y, z): bad.append(("Phi-DT", str(p), str(q), str(r), str(want), str(got)))
+    with prec(15):
+        # manifestly symmetric Feynman-parameter form of the massless triangle:
+        # Phi_DT(x/z, y/z)/z = int da1 da2 1/(a1 a2 z + a2 a3 x + a1 a3 y), a3 = 1 - a1 - a2
+        for x, y, z in [(1, 1, 1), (0.2, 1.0, 0.3), (3, 0.5, 1)]:
+            x, y, z = mpf(x), mpf(y), mpf(z)
+            f = lambda a1, a2: 1/(a1*a2*z + a2*(1 - a1 - a2)*x + a1*(1 - a1 - a2)*y)
+            want = LambdaK2(x, y, z)/2*mpmath.quad(lambda a1: mpmath.quad(lambda a2: f(a1, a2), [0, 1 - a1]), [0, 1])
+            if abs(want - Phi(x, y, z)) > mpf(10)**-7: bad.append(("Phi-Feynman", str(x), str(y), str(z), str(want), str(Phi(x, y, z))))
+    with prec(25):
+        # Phi(x,y,y) relations to f_PS (test_ffunctions.cpp / gm2_2loop_B.cpp comments)
+        for x, y in [(0.1, 3), (2, 0.3), (5, 1)]:
+            x, y = mpf(x), mpf(y)
+            if abs(Phi(x, y, y)/(x - 4*y) - x/y/2*fPS(y/x)) > mpf(10)**-18: bad.append(("Phi-fPS", str(x), str(y)))
+        # Iabc: defining integral  I(a,b,c) = int_0^inf t dt /((t+a^2)(t+b^2)(t+c^2))
+        for a, b, c in [(1, 2, 3), (0.3, 0.3, 2), (5, 0.1, 0.7), (2, 2, 2)]:
+            a, b, c = mpf(a), mpf(b), mpf(c)
+            want = mpmath.quad(lambda t: t/((t + a*a)*(t + b*b)*(t + c*c)), [0, 1, mpmath.inf])
+            if abs(want - Iabc(a, b, c)) > mpf(10)**-15: bad.append(("Iabc-int", str(a), str(b), str(c), str(want), str(Iabc(a, b, c))))
+        # Fa/Fb coincidence limits, FPZ/FSZ coincidence limits = limits of the difference quotients
+        e = mpf(10)**-12
+        mp.dps = 90
+        for f in (Fa, Fb, FPZ, FSZ):
+            for x in (mpf("0.3"), mpf(2), mpf("0.25"), mpf(1)):
+                if abs(f(x, x) - (f(x*(1 + e), x*(1 - e)))) > mpf(10)**-9: bad.append((f.__name__ + "-limit", str(x)))
+        # shared f_CS evaluation == plain transcription; FCW limit at equal scales
+        xu, xd = mpf("1.3"), mpf("0.4")
+        (d, u), = fCS_all(xu, xd, [(mpf(2)/3, -mpf(1)/3)])
+        if abs(d - fCSd(xu, xd, mpf(2)/3, -mpf(1)/3)) > mpf(10)**-20 or abs(u - fCSu(xu, xd, mpf(2)/3, -mpf(1)/3)) > mpf(10)**-20:
+            bad.append("fCS-shared")
+        uu, dd = FCW_both(xu, xd, xu, xd, mpf(2)/3, -mpf(1)/3)
+        s = 1 + mpf(10)**-9
+        if abs(uu - FCWu(xu, xd, s*xu, s*xd, mpf(2)/3, -mpf(1)/3)) > mpf(10)**-7 or \
+           abs(dd - FCWd(xu, xd, s*xu, s*xd, mpf(2)/3, -mpf(1)/3)) > mpf(10)**-7:
+            bad.append("FCW-limit")
+        # PhiOverY limit formulas at y = 0 against neighbouring points
+        for xd in (mpf("0.25"), mpf(4)):
+            for sgn in (1, -1):
+                xu0 = (1 + sgn*sqrt(xd))**2
+                if xu0 == 0: continue
+                if abs(PhiOverY(xu0, xd) - PhiOverY(xu0*(1 + mpf(10)**-8), xd)) > mpf(10)**-6: bad.append(("PhiOverY", str(xd), sgn))
     return bad
 
 
